@@ -231,6 +231,11 @@ func runC01(c *Ctx) {
 	// offset left by a hyphenated word in the context ends with its line (R06.9/R06.10)
 	checkMidLineReset(c, p)
 	checkTruncationOrder(c, p)
+	checkNoCandidateCap(c, p)
+	checkFirstPassAdmission(c, p)
+	// shared with C06: a copy is tokenized like its source only if the text of a token is computed for that token, at its own
+	// position in its line - not taken from a cache filled by an earlier occurrence of the word elsewhere (R06.5)
+	checkTokenTextProvenance(c, p)
 	// shared with C12: a copy of a document loaded from a directory is reported under that document's own labels only if
 	// the labels do not depend on how the directory was spelled (R12.2)
 	if c.R.Filter == nil {
@@ -657,6 +662,11 @@ func runC02(c *Ctx) {
 	// shared with C06: a word is the first of its line - and may be dropped as a list marker - only if nothing of the line
 	// was handed over before it (R06.15); a dropped word that belongs to the text makes a longer text score 1.0
 	checkLineStringifier(c, p)
+	// shared with C08: Confidence 1.0 means word-for-word identical only if every byte of the input reaches the tokenizer -
+	// also the bytes a reader delivers together with the end of the input (R08.3)
+	if c.R.Filter == nil {
+		borrowRules(c, []string{"R08.3"}, runC08)
+	}
 	sc := p.Func(v2pkg, "(*Classifier).score")
 	if !c.R.Anchor(sc != nil, "v2.(*Classifier).score") {
 		return
@@ -1351,67 +1361,7 @@ func runC06(c *Ctx) {
 	// R06.4 the scheme rewrite (in normalizeToken, or wherever it was inlined)
 	checkSchemeRewrite(c, p)
 
-	// R06.5 token text provenance (by role: wherever cleanupToken is called)
-	if ct := p.Func(v2pkg, "cleanupToken"); c.R.Anchor(ct != nil, "v2.cleanupToken") {
-		n := 0
-		for _, fn := range v2Funcs(p) {
-			for _, call := range core.CallsIn(fn) {
-				cv, isCall := call.(*ssa.Call)
-				if !isCall || cv.Call.StaticCallee() != ct {
-					continue
-				}
-				n++
-				// the position: the index of the loop over the words, plus (optionally) the position of the buffer's first
-				// word in its line, handed in as an integer parameter
-				posArg := cv.Call.Args[0]
-				if bo, isBo := posArg.(*ssa.BinOp); isBo && bo.Op == token.ADD {
-					if _, isPrm := core.Unspill(bo.X).(*ssa.Parameter); isPrm {
-						posArg = bo.Y
-					} else if _, isPrm := core.Unspill(bo.Y).(*ssa.Parameter); isPrm {
-						posArg = bo.X
-					}
-				}
-				okPos := ascendingIndex(posArg)
-				// the cleaned text must go straight to the dictionary (or to the caller), not into a cache
-				cached := false
-				for _, r := range *cv.Referrers() {
-					if mu, isMU := r.(*ssa.MapUpdate); isMU && mu.Value == ssa.Value(cv) {
-						cached = true
-					}
-				}
-				// the value finally interned for this token must be this call's result on every path: every phi it
-				// flows into may only merge it with other cleanupToken results / empty constants
-				mixed := ""
-				for _, r := range *cv.Referrers() {
-					if ph, isPhi := r.(*ssa.Phi); isPhi {
-						for _, e := range ph.Edges {
-							if e == ssa.Value(cv) {
-								continue
-							}
-							if _, isConst := e.(*ssa.Const); isConst {
-								continue
-							}
-							if ec, isC := e.(*ssa.Call); isC && ec.Call.StaticCallee() == ct {
-								continue
-							}
-							mixed = eng.Describe(e)
-						}
-					}
-				}
-				ok := okPos && !cached && mixed == ""
-				why := "cleanupToken(i, word, normalize) with i the index of the loop over the line's words; result used directly"
-				if !okPos {
-					why = "the position handed to cleanupToken is not the index of the loop over the line's words"
-				} else if cached {
-					why = "the result of cleanupToken is stored in a map keyed by something else than its position (a cache): list-marker removal depends on the position in the line, so a cached result is wrong for other positions"
-				} else if mixed != "" {
-					why = "the text interned for a token can come from " + mixed + " instead of cleanupToken at the token's own position (a cached or shared result)"
-				}
-				c.R.Check(ok, "R06.5", core.ShortFn(fn)+": the text interned for a token is cleanupToken(its position in the line, its word)", p.Pos(call.Pos()), why, why)
-			}
-		}
-		c.R.RequireMin("R06.5", "cleanupToken call sites", n, 1)
-	}
+	checkTokenTextProvenance(c, p)
 
 	// R06.6 / R06.7 / R06.8
 	checkNoticePatternsUnconditional(c, p)
@@ -1423,6 +1373,7 @@ func runC06(c *Ctx) {
 
 	// R06.3 hyphenation flags survive refills
 	checkFlagsSurviveRefill(c, p)
+	checkHyphenTestUnguarded(c, p)
 	// R06.11 a word split with a hyphen is joined in CR LF texts too
 	checkCRBeforeHyphenJoin(c, p)
 	// R03.9 / R03.11 (shared with C03): an inserted notice is reported on exactly its line - the line counter advances by one
@@ -1515,6 +1466,45 @@ func checkFlagsSurviveRefill(c *Ctx, p *core.Prog) {
 		}
 	}
 	c.R.RequireMin("R06.3", "state variables of the rune loop", n, 2)
+	// ... and the objects the tokenizer works with (the dictionaries, the document) are the same ones in every window: a
+	// pointer or map that the read loop carries round is never replaced by the refill step (a local dictionary started anew
+	// at a refill no longer resolves the ids of the words collected on the unfinished line)
+	for _, in := range outer.Instrs {
+		phi, ok := in.(*ssa.Phi)
+		if !ok {
+			continue
+		}
+		switch phi.Type().Underlying().(type) {
+		case *types.Pointer, *types.Map:
+		default:
+			continue
+		}
+		var same func(v ssa.Value, seen map[ssa.Value]bool) bool
+		same = func(v ssa.Value, seen map[ssa.Value]bool) bool {
+			if v == ssa.Value(phi) {
+				return true
+			}
+			ph, isPhi := v.(*ssa.Phi)
+			if !isPhi || seen[v] {
+				return isPhi && seen[v]
+			}
+			seen[v] = true
+			for _, e := range ph.Edges {
+				if !same(e, seen) {
+					return false
+				}
+			}
+			return true
+		}
+		okP := true
+		for j, e := range phi.Edges {
+			if outer.Dominates(outer.Preds[j]) && !same(e, map[ssa.Value]bool{}) {
+				okP = false
+			}
+		}
+		c.R.Check(okP, "R06.3", "tokenizeStream: the object "+phi.Comment+" is the same one in every window", p.Pos(phi.Pos()), "never re-assigned inside the read loop",
+			"the read loop replaces "+phi.Comment+" between two windows: what was collected with the old object (the ids of the words of the unfinished line, say) is interpreted with the new one, so the tokens depend on where the window boundaries fall")
+	}
 }
 
 // checkSchemeRewrite: R06.4 (shared by C06 and C11). The https->http rewrite applies to every occurrence in a token, runs to a
@@ -1754,6 +1744,96 @@ func checkSchemeRewrite(c *Ctx, p *core.Prog) {
 	c.R.Check(okAll, "R06.4", "every occurrence of the https scheme inside a token is rewritten, idempotently", pos, why, why+": a URL whose scheme is not at the start of the token (e.g. \"(https://...\") is not normalised")
 }
 
+// checkHyphenTestUnguarded: R06.17. A word is split "across two lines with a trailing hyphen" wherever the writer broke it -
+// also right behind its first letter. The test `the last byte of the word buffer is a hyphen` therefore stands behind
+// nothing more than `the buffer is not empty`: a test of the buffer's length against a larger constant in front of it
+// exempts short word beginnings from being joined.
+func checkHyphenTestUnguarded(c *Ctx, p *core.Prog) {
+	ts := p.Func(v2pkg, "tokenizeStream")
+	if ts == nil {
+		return
+	}
+	n := 0
+	for _, b := range ts.Blocks {
+		for _, in := range b.Instrs {
+			bo, ok := in.(*ssa.BinOp)
+			if !ok || (bo.Op != token.EQL && bo.Op != token.NEQ) {
+				continue
+			}
+			if k, isK := core.ConstInt(bo.Y); !isK || k != '-' {
+				continue
+			}
+			ld, ok := bo.X.(*ssa.UnOp)
+			if !ok {
+				continue
+			}
+			ia, ok := ld.X.(*ssa.IndexAddr)
+			if !ok {
+				continue
+			}
+			if base, d, okL := lenMinusOf(ia.Index); !okL || d != 1 || !sameSliceBase(base, ia.X) {
+				continue
+			}
+			n++
+			bad := ""
+			for _, f := range core.FactsAt(b) {
+				cmp, okC := f.AsCmp()
+				if !okC {
+					continue
+				}
+				lc, isCall := cmp.X.(*ssa.Call)
+				if !isCall {
+					continue
+				}
+				bi, isB := lc.Call.Value.(*ssa.Builtin)
+				if !isB || bi.Name() != "len" || !sameSliceBase(lc.Call.Args[0], ia.X) {
+					continue
+				}
+				k, isK := core.ConstInt(cmp.Y)
+				if !isK {
+					continue
+				}
+				// what the fact says about the least length: > k means >= k+1, >= k means >= k, != 0 means >= 1
+				least := int64(0)
+				switch cmp.Op {
+				case token.GTR:
+					least = k + 1
+				case token.GEQ:
+					least = k
+				case token.NEQ:
+					if k == 0 {
+						least = 1
+					}
+				}
+				if least > 1 {
+					bad = fmt.Sprintf("len(buffer) >= %d", least)
+				}
+			}
+			c.R.Check(bad == "", "R06.17", "tokenizeStream: the test for a trailing hyphen stands behind `the word buffer is not empty` only", p.Pos(bo.Pos()), "no test of the buffer's length against a larger constant dominates it",
+				"the trailing-hyphen test is only made when "+bad+": a word that is split behind its first letter(s) is not joined with its remainder, so where a writer breaks a word changes the tokens")
+		}
+	}
+	c.R.RequireMin("R06.17", "tests of the last byte of the word buffer against a hyphen", n, 1)
+}
+
+// lenMinusOf: v is len(x) - d for a constant d.
+func lenMinusOf(v ssa.Value) (ssa.Value, int64, bool) {
+	bo, ok := v.(*ssa.BinOp)
+	if !ok || bo.Op != token.SUB {
+		return nil, 0, false
+	}
+	d, isK := core.ConstInt(bo.Y)
+	lc, isCall := bo.X.(*ssa.Call)
+	if !isK || !isCall {
+		return nil, 0, false
+	}
+	bi, isB := lc.Call.Value.(*ssa.Builtin)
+	if !isB || bi.Name() != "len" {
+		return nil, 0, false
+	}
+	return lc.Call.Args[0], d, true
+}
+
 // checkCRBeforeHyphenJoin: R06.11. A word split with a trailing hyphen is put together again when the line feed finds the
 // hyphen at the end of the word buffer. In a CR LF text the rune behind the hyphen is the carriage return, which is white
 // space: if the white-space branch flushes the word for it, the line feed finds nothing to join. The flush of the word in
@@ -1935,6 +2015,14 @@ func runC11(c *Ctx) {
 	// shared with C08: Normalize moves the bytes of the text to other offsets, so the original and its normalized form agree
 	// only if no word depends on where the read window happens to end (R08.4/R08.5/R08.8)
 	tokenizerWindowRules(c, p)
+	// shared with C01: the notice lines that Normalize removes are candidates in the original: a candidate list with a fixed
+	// capacity makes the original and its normalized form disagree once there are enough of them (R01.9)
+	checkNoCandidateCap(c, p)
+	// shared with C04: Normalize leaves the classifier as it found it - words interned in the classifier's own dictionary
+	// change how the Match that follows reads the same text (R04.1)
+	if nzf := p.Func(v2pkg, "(*Classifier).Normalize"); nzf != nil {
+		runEffects(c, p, "R04.1", effectRoot{fn: nzf, name: "(*Classifier).Normalize", params: provParams(nzf, eng.Shared, eng.Input)}, matchScope, false)
+	}
 	ts := p.Func(v2pkg, "tokenizeStream")
 	if !c.R.Anchor(ts != nil, "v2.tokenizeStream") {
 		return
@@ -1988,6 +2076,67 @@ func runC11(c *Ctx) {
 				"unicode.ToLower(...) on every path, whatever the normalize flag", "on some path (the one taken when the text is only tokenised, not normalised) the rune reaches the word buffer with its case: Normalize and Match then disagree on words whose later treatment is case-sensitive (character references such as &Quot;)")
 		}
 		c.R.RequireMin("R11.12", "runes appended to the word buffer", nA, 1)
+	}
+	// R11.13: what the punctuation table does to a rune inside a word does not depend on the normalize flag: typographic
+	// dashes become hyphens, (c) signs become "(c)" in both passes - otherwise a word with such a rune is one token for Match and
+	// another in the text Normalize writes
+	{
+		flag := ts.Params[1]
+		cd := core.NewPostDom(ts).TransitiveControlDeps()
+		nT, bad := 0, ""
+		for _, b := range ts.Blocks {
+			for _, in := range b.Instrs {
+				ex, ok := in.(*ssa.Extract)
+				if !ok || ex.Index != 1 {
+					continue
+				}
+				isTable := false
+				switch t := ex.Tuple.(type) {
+				case *ssa.Lookup:
+					if ld, isLd := t.X.(*ssa.UnOp); isLd {
+						if g, isG := ld.X.(*ssa.Global); isG && strings.Contains(strings.ToLower(g.Name()), "punctuation") {
+							isTable = true
+						}
+					}
+				case *ssa.Call:
+					if cal := t.Call.StaticCallee(); cal != nil && strings.Contains(strings.ToLower(cal.Name()), "punctuation") {
+						isTable = true
+					}
+				}
+				if !isTable {
+					continue
+				}
+				nT++
+				// the blocks that run when the rune was found in the table
+				for _, tb := range ts.Blocks {
+					underFound, underFlag := false, false
+					for d := range cd[tb] {
+						ifi, isIf := d.Instrs[len(d.Instrs)-1].(*ssa.If)
+						if !isIf {
+							continue
+						}
+						if ifi.Cond == ssa.Value(ex) {
+							underFound = true
+						}
+						if ifi.Cond == ssa.Value(flag) && d.Dominates(tb) && b.Dominates(d) {
+							underFlag = true
+						}
+					}
+					if underFound && underFlag {
+						bad = p.Pos(tb.Instrs[0].Pos())
+					}
+				}
+				// ... and the lookup itself
+				for d := range cd[b] {
+					if ifi, isIf := d.Instrs[len(d.Instrs)-1].(*ssa.If); isIf && ifi.Cond == ssa.Value(flag) {
+						bad = p.Pos(in.Pos())
+					}
+				}
+			}
+		}
+		c.R.Check(bad == "", "R11.13", "tokenizeStream: the punctuation table is applied whatever the normalize flag", p.Pos(ts.Pos()), fmt.Sprintf("%d lookups in the punctuation table", nT),
+			"what happens to a rune that the punctuation table knows depends on the normalize flag (at "+bad+"): Match maps a typographic hyphen, dash or (c) sign inside a word, Normalize's pass does not, so the word is read differently in the original and in its normalized form")
+		c.R.Count("R11.13:lookups in the punctuation table", nT)
 	}
 	// R11.1: flag independence of the line counter and of every Line stored
 	for _, fn := range []*ssa.Function{ts, p.Func(v2pkg, "stringifyLineBuf"), p.Func(v2pkg, "appendToDoc")} {
@@ -2217,6 +2366,57 @@ func checkNoticePatternsUnconditional(c *Ctx, p *core.Prog) {
 		}
 	}
 	c.R.RequireMin("R06.6", "token literals behind the notice patterns", n, 1)
+	// R05.9: whether a line is a notice is decided by its text: no test of a pattern stands behind a condition on one of the
+	// function's integer parameters (the line number, the position in the line) - blank lines inserted above a notice must not
+	// turn it into text
+	nM, badM := 0, ""
+	for fn := range direct {
+		cdeps := core.NewPostDom(fn).TransitiveControlDeps()
+		var ints []*ssa.Parameter
+		for _, prm := range fn.Params {
+			if bt, ok := prm.Type().Underlying().(*types.Basic); ok && bt.Kind() == types.Int {
+				ints = append(ints, prm)
+			}
+		}
+		for _, call := range core.CallsIn(fn) {
+			if core.StaticCalleeName(call.Common()) != "(*regexp.Regexp).MatchString" {
+				continue
+			}
+			nM++
+			for d := range cdeps[call.Block()] {
+				ifi, ok := d.Instrs[len(d.Instrs)-1].(*ssa.If)
+				if !ok {
+					continue
+				}
+				seen := map[ssa.Value]bool{}
+				var walk func(v ssa.Value) bool
+				walk = func(v ssa.Value) bool {
+					if v == nil || seen[v] {
+						return false
+					}
+					seen[v] = true
+					for _, ip := range ints {
+						if v == ssa.Value(ip) {
+							return true
+						}
+					}
+					if vi, ok := v.(ssa.Instruction); ok {
+						for _, op := range vi.Operands(nil) {
+							if walk(*op) {
+								return true
+							}
+						}
+					}
+					return false
+				}
+				if walk(ifi.Cond) {
+					badM = core.ShortFn(fn) + " (" + p.Pos(ifi.Cond.Pos()) + ")"
+				}
+			}
+		}
+	}
+	c.R.Check(badM == "", "R05.9", "v2: a notice pattern is applied whatever the line's number or position", v2pkg, fmt.Sprintf("%d pattern tests, none behind a condition on an integer parameter", nM),
+		"a test of a notice pattern stands behind a condition on the line number or position in "+badM+": the same line is a notice or text depending on where it stands, so inserting blank lines above it changes the tokens")
 }
 
 // checkMidLineReset: R06.9. List markers are recognised by their position in the line (first word). The tokenizer hands
@@ -3817,6 +4017,81 @@ func runC17(c *Ctx) {
 		c.R.RequireMin("R17.8", "functions given a source and a target search set", nP, 2)
 	}
 
+	// R17.10 the byte range that TargetRange computed for a candidate is used as it is: the bounds with which the
+	// normalised text is sliced are the two results of TargetRange themselves, not values computed from them afterwards
+	// (a range "widened to the length of the known text" runs past the end of the unknown text)
+	{
+		tr := p.Func(ssPkg, "(MatchRanges).TargetRange")
+		nS, bad := 0, ""
+		for _, f := range p.SrcFuncs(scPkg) {
+			if core.FuncPkgPath(f) != scPkg {
+				continue
+			}
+			var res []ssa.Value
+			for _, call := range core.CallsIn(f) {
+				if tr != nil && call.Common().StaticCallee() == tr {
+					if cv, ok := call.(*ssa.Call); ok && cv.Referrers() != nil {
+						for _, r := range *cv.Referrers() {
+							if ex, isEx := r.(*ssa.Extract); isEx {
+								res = append(res, ex)
+							}
+						}
+					}
+				}
+			}
+			if len(res) == 0 {
+				continue
+			}
+			isRes := func(v ssa.Value) bool {
+				for _, r := range res {
+					if v == r {
+						return true
+					}
+				}
+				return false
+			}
+			for _, b := range f.Blocks {
+				for _, in := range b.Instrs {
+					sl, ok := in.(*ssa.Slice)
+					if !ok || !isString(sl.X.Type()) || sl.Low == nil || sl.High == nil {
+						continue
+					}
+					// slices whose bounds have to do with the candidate's range
+					touches := false
+					for _, bnd := range []ssa.Value{sl.Low, sl.High} {
+						seen := map[ssa.Value]bool{}
+						var walk func(v ssa.Value)
+						walk = func(v ssa.Value) {
+							if v == nil || seen[v] {
+								return
+							}
+							seen[v] = true
+							if isRes(v) {
+								touches = true
+							}
+							if vi, ok := v.(ssa.Instruction); ok {
+								for _, op := range vi.Operands(nil) {
+									walk(*op)
+								}
+							}
+						}
+						walk(bnd)
+					}
+					if !touches {
+						continue
+					}
+					nS++
+					if !isRes(sl.Low) || !isRes(sl.High) {
+						bad = core.ShortFn(f) + " (" + p.Pos(sl.Pos()) + ")"
+					}
+				}
+			}
+		}
+		c.R.Check(bad == "", "R17.10", "stringclassifier: the text of a candidate is sliced with the bounds TargetRange returned", scPkg, fmt.Sprintf("%d slices of the unknown text by a candidate's range", nS),
+			"in "+bad+" the unknown text is sliced with a bound that was computed from TargetRange's result, not with the result itself: the bound can lie outside the text (the slice panics) or outside the candidate")
+		c.R.RequireMin("R17.10", "slices of the unknown text by a candidate's range", nS, 1)
+	}
+
 	// R17.2 candidates sorted by target position
 	gm := p.Func(ssPkg, "getMatchedRanges")
 	if c.R.Anchor(gm != nil, "searchset.getMatchedRanges") {
@@ -4709,4 +4984,216 @@ func checkLineStringifier(c *Ctx, p *core.Prog) {
 	}
 	_ = clean
 	c.R.RequireMin("R06.15", "calls of the word clean-up in the line stringifier", nC, 1)
+}
+
+
+// checkNoCandidateCap: R01.9. Every copy in the input is a candidate of its own: the lists of candidates (match ranges,
+// matches) have no fixed capacity. An append that only happens while the list is shorter than a constant, or a list that
+// is re-sliced to a constant length, loses the candidates beyond it - the 33rd copy of a document, the licenses behind
+// 512 notice lines.
+func checkNoCandidateCap(c *Ctx, p *core.Prog) {
+	isCandList := func(t types.Type) bool {
+		sl, ok := t.Underlying().(*types.Slice)
+		if !ok {
+			return false
+		}
+		n := core.TypeName(sl.Elem())
+		return strings.HasSuffix(n, "/v2.Match") || strings.HasSuffix(n, "/v2.matchRange")
+	}
+	nApp, bad := 0, ""
+	for _, fn := range pkgFuncs(p, v2pkg) {
+		if isTraceFn(fn) {
+			continue
+		}
+		cdeps := core.NewPostDom(fn).TransitiveControlDeps()
+		for _, b := range fn.Blocks {
+			for _, in := range b.Instrs {
+				switch x := in.(type) {
+				case *ssa.Call:
+					bi, ok := x.Call.Value.(*ssa.Builtin)
+					if !ok || bi.Name() != "append" || !isCandList(x.Type()) {
+						continue
+					}
+					nApp++
+					fam := sliceFamily(x)
+					for d := range cdeps[b] {
+						ifi, ok := d.Instrs[len(d.Instrs)-1].(*ssa.If)
+						if !ok {
+							continue
+						}
+						// a test of len(the list) against a constant
+						var visit func(v ssa.Value, depth int)
+						visit = func(v ssa.Value, depth int) {
+							if depth > 4 {
+								return
+							}
+							bo, ok := v.(*ssa.BinOp)
+							if !ok {
+								return
+							}
+							for _, pair := range [][2]ssa.Value{{bo.X, bo.Y}, {bo.Y, bo.X}} {
+								lc, isCall := pair[0].(*ssa.Call)
+								k, isK := core.ConstInt(pair[1])
+								if !isCall || !isK || k <= 1 {
+									continue
+								}
+								if lb, isB := lc.Call.Value.(*ssa.Builtin); isB && lb.Name() == "len" && fam[lc.Call.Args[0]] {
+									bad = fmt.Sprintf("%s: the append at %s happens only while the list is shorter than %d", core.ShortFn(fn), p.Pos(x.Pos()), k)
+								}
+							}
+							visit(bo.X, depth+1)
+							visit(bo.Y, depth+1)
+						}
+						visit(ifi.Cond, 0)
+					}
+				case *ssa.Slice:
+					if !isCandList(x.Type()) || x.High == nil {
+						continue
+					}
+					if k, isK := core.ConstInt(x.High); isK && k > 0 && x.Low == nil {
+						bad = fmt.Sprintf("%s: the list is cut to its first %d elements at %s", core.ShortFn(fn), k, p.Pos(x.Pos()))
+					}
+				}
+			}
+		}
+	}
+	c.R.Check(bad == "", "R01.9", "v2: no list of candidates has a fixed capacity", v2pkg, fmt.Sprintf("%d appends to lists of matches and match ranges, none under a test of the list's length against a constant, no cut to a constant length", nApp),
+		bad+": the candidates beyond that number are lost, however well they match - a copy that is planted often enough, or behind enough notice lines, is not reported")
+	c.R.RequireMin("R01.9", "appends to candidate lists", nApp, 3)
+}
+
+// checkFirstPassAdmission: R01.10. Which corpus documents are compared with the input in detail is decided by their token
+// similarity alone: in the loop over the corpus, the store that admits a document to the second pass stands behind tests
+// of the similarity (and of nothing else - not of the document's length, its name or a counter).
+func checkFirstPassAdmission(c *Ctx, p *core.Prog) {
+	m := p.Func(v2pkg, "(*Classifier).match")
+	if m == nil {
+		return
+	}
+	sim := p.Func(v2pkg, "(*indexedDocument).tokenSimilarity")
+	n := 0
+	for _, fn := range pkgClosure(m, v2pkg) {
+		cdeps := core.NewPostDom(fn).TransitiveControlDeps()
+		for _, rl := range rangeLoopsOf(fn) {
+			mt, isMap := rl.over.Type().Underlying().(*types.Map)
+			if !isMap || !strings.HasSuffix(core.TypeName(mt.Elem()), "/v2.indexedDocument") {
+				continue
+			}
+			loop := naturalLoop(rl.header)
+			for _, b := range fn.Blocks {
+				if !loop[b] {
+					continue
+				}
+				for _, in := range b.Instrs {
+					mu, ok := in.(*ssa.MapUpdate)
+					if !ok || !strings.HasSuffix(core.TypeName(mu.Value.Type()), "/v2.indexedDocument") {
+						continue
+					}
+					n++
+					bad := ""
+					for d := range cdeps[b] {
+						if !loop[d] || d == rl.header {
+							continue
+						}
+						ifi, ok := d.Instrs[len(d.Instrs)-1].(*ssa.If)
+						if !ok {
+							continue
+						}
+						// the condition is computed from the similarity
+						dep := false
+						seen := map[ssa.Value]bool{}
+						var walk func(v ssa.Value)
+						walk = func(v ssa.Value) {
+							if v == nil || seen[v] {
+								return
+							}
+							seen[v] = true
+							if call, isCall := v.(*ssa.Call); isCall && sim != nil && call.Call.StaticCallee() == sim {
+								dep = true
+							}
+							if vi, ok := v.(ssa.Instruction); ok {
+								for _, op := range vi.Operands(nil) {
+									walk(*op)
+								}
+							}
+						}
+						walk(ifi.Cond)
+						if !dep {
+							bad = p.Pos(ifi.Cond.Pos())
+						}
+					}
+					c.R.Check(bad == "", "R01.10", core.ShortFn(fn)+": a corpus document is admitted to the detailed comparison by its token similarity alone", p.Pos(mu.Pos()), "the admitting store stands behind tests of tokenSimilarity only",
+						"whether a document is admitted also depends on a test that does not involve its similarity (at "+bad+"): documents are left out for another reason - their length, say - and their copies are never found")
+				}
+			}
+		}
+	}
+	c.R.RequireMin("R01.10", "admissions to the second pass in the loop over the corpus", n, 1)
+}
+
+
+// checkTokenTextProvenance: R06.5 (shared by C06 and C01).
+func checkTokenTextProvenance(c *Ctx, p *core.Prog) {
+	// R06.5 token text provenance (by role: wherever cleanupToken is called)
+	if ct := p.Func(v2pkg, "cleanupToken"); c.R.Anchor(ct != nil, "v2.cleanupToken") {
+		n := 0
+		for _, fn := range v2Funcs(p) {
+			for _, call := range core.CallsIn(fn) {
+				cv, isCall := call.(*ssa.Call)
+				if !isCall || cv.Call.StaticCallee() != ct {
+					continue
+				}
+				n++
+				// the position: the index of the loop over the words, plus (optionally) the position of the buffer's first
+				// word in its line, handed in as an integer parameter
+				posArg := cv.Call.Args[0]
+				if bo, isBo := posArg.(*ssa.BinOp); isBo && bo.Op == token.ADD {
+					if _, isPrm := core.Unspill(bo.X).(*ssa.Parameter); isPrm {
+						posArg = bo.Y
+					} else if _, isPrm := core.Unspill(bo.Y).(*ssa.Parameter); isPrm {
+						posArg = bo.X
+					}
+				}
+				okPos := ascendingIndex(posArg)
+				// the cleaned text must go straight to the dictionary (or to the caller), not into a cache
+				cached := false
+				for _, r := range *cv.Referrers() {
+					if mu, isMU := r.(*ssa.MapUpdate); isMU && mu.Value == ssa.Value(cv) {
+						cached = true
+					}
+				}
+				// the value finally interned for this token must be this call's result on every path: every phi it
+				// flows into may only merge it with other cleanupToken results / empty constants
+				mixed := ""
+				for _, r := range *cv.Referrers() {
+					if ph, isPhi := r.(*ssa.Phi); isPhi {
+						for _, e := range ph.Edges {
+							if e == ssa.Value(cv) {
+								continue
+							}
+							if _, isConst := e.(*ssa.Const); isConst {
+								continue
+							}
+							if ec, isC := e.(*ssa.Call); isC && ec.Call.StaticCallee() == ct {
+								continue
+							}
+							mixed = eng.Describe(e)
+						}
+					}
+				}
+				ok := okPos && !cached && mixed == ""
+				why := "cleanupToken(i, word, normalize) with i the index of the loop over the line's words; result used directly"
+				if !okPos {
+					why = "the position handed to cleanupToken is not the index of the loop over the line's words"
+				} else if cached {
+					why = "the result of cleanupToken is stored in a map keyed by something else than its position (a cache): list-marker removal depends on the position in the line, so a cached result is wrong for other positions"
+				} else if mixed != "" {
+					why = "the text interned for a token can come from " + mixed + " instead of cleanupToken at the token's own position (a cached or shared result)"
+				}
+				c.R.Check(ok, "R06.5", core.ShortFn(fn)+": the text interned for a token is cleanupToken(its position in the line, its word)", p.Pos(call.Pos()), why, why)
+			}
+		}
+		c.R.RequireMin("R06.5", "cleanupToken call sites", n, 1)
+	}
+
 }
